@@ -21,7 +21,8 @@ def _eval_job(job):
     repo, pkg, overrides, props = job
     out = {}
     try:
-        mp = Program(repo, pkg, overrides=overrides)
+        from .normal import normalised
+        mp = normalised(Program(repo, pkg, overrides=overrides))
     except AnalysisError as e:
         return {p: f'ANALYSIS-ERROR: {e}' for p in props}
     for p in props:
